@@ -13,6 +13,8 @@
 //	    one round trip (Normal/Read, Unified/ReadUnified, or a one-file git wrapper/ReadGitPatch)
 //	    AFTER earlier calls in the same process that the line itself names: see round4.go
 //	ZF <layout hex|-> <unix sec> <nsec> <zone offset sec> | same|zero|lost    FileInfo.TimeFormat: see round5.go
+//	ZP <layout hex|-> <sec1> <nsec1> <off1> <sec2> <nsec2> <off2> | <hdr> <left> <right> <re-formatted>   two real times: see round6.go
+//	LA <ctx> <fi> <recipe> | <N> <U> <C> <chunks>     large texts named by a recipe, New called when the line runs: see round6.go
 //	Z <unix sec> <nsec> <zone offset sec> | same|zero|lost
 //	    a real time.Time (instant + fixed zone) put into FileInfo.LeftTime/RightTime, written by
 //	    Unified and Context with the default TimeFormat and read back by ReadUnified/ReadGitPatch:
@@ -241,6 +243,10 @@ func exec(in string) (out string) {
 			lay = tr.UnHex(f[1])
 		}
 		return stampLayout(lay, atoi64(f[2]), atoi64(f[3]), atoi(f[4]))
+	case "ZP": // two real times, one per side (round6.go)
+		return execZP(f)
+	case "LA": // texts by recipe; New is called here (round6.go)
+		return execLA(f)
 	case "V", "W": // validation of the reference appliers against GNU diff / GNU patch: the
 		// outside tool's answer is part of the input (an oracle), nothing of mdiff runs here
 		return "ok"
@@ -885,7 +891,7 @@ func gnuValidation(g *tr.G) {
 }
 
 func main() {
-	tr.Main("C14: ROUND 5 (round5.go): header names special to the formats - /dev/null and near misses, a/ and b/ prefixes, the default placeholders a and b, the empty name, equal names on both sides, names with blanks, quotes, backslashes, names that look like header / hunk / git lines or end in a timestamp (names with a tab: correspondence only) - in every ordered pair of the core seventeen and each of the others against itself, /dev/null, a/x, b/x and the empty name, on an ordinary change, a created file and a deleted file (the side that does not exist named /dev/null), with no, one and both stamps, through D, A, git wrappers of one, two and three files with the junk lines git writes for that kind of patch, and Q lines behind a reader call that saw a /dev/null header; every rendering also through Diff.Format (must be byte-identical); ZF lines: FileInfo.TimeFormat set to 14 layouts (and left empty) on real times, both headers of Unified and Context compared with time.Format; every reader call of every line through one of eight kinds of io.Reader chosen by the length of the text (strings.Reader, bytes.Reader, bytes.Buffer, bufio.Reader of the default size and of 16 bytes, one byte per Read, the last bytes together with io.EOF, 7-byte chunks behind reads that return (0, nil)). ROUND 4 (Q lines, each self-contained: it names the earlier calls it runs after): a round trip through each of the three readers after each of the three readers was called on a text that leaves it at one of its exits - every hand-written text, valid renderings (normal, unified with and without header, two-file git wrapper) whole, cut short after every line, with 15 kinds of foreign line behind the last hunk, with a number in every change command and hunk header made wrong, with the first line missing, damaged at random, and much larger ones (40 hunks, a 5000-byte line) - all 3x3 combinations of prelude reader and target reader, two earlier calls, formatter calls into a writer that fails or panics at its k-th Write (k = 1..24), a much larger formatter call first; what the earlier reader calls returned is spelled again after the round trip and must not have changed. EVERY line length 1..600 (thorough 1100) as a deleted, an added and a context line of one diff (every fifth length also as either side of a Replace) through Normal/Read, Unified/ReadUnified, Context, the three reference appliers and a git wrapper; every number of lines in one edit 1..600 (dropped / inserted / replaced, rotating), every start line 1..601 (spellings of all those numbers in ranges and change commands; odd offsets with different left and right line numbers), every number of hunks 1..100 (thorough 600). COLLIDING LINES from corpus/common/hash-collisions.tsv (FNV-1a/FNV-1 32, CRC-32, Adler-32, djb2, 31-polynomial; each pair checked against its hash when the generator starts) and lines equal up to case, surrounding blanks, Unicode normalisation, numeric value, byte order: one in Left where Right has the other, next to each other, one the context of a change to the other, one in each file of a git wrapper; number-like and multi-byte UTF-8 line texts in every role. Then, as before: every pair of texts over 3 symbols to length 3 (quick) / 4 (thorough) at contexts 0, 1, 3, each diff with and without a file header; a sweep of line texts - every string of length <= 2 (quick) / <= 3 (thorough) over the bytes the formats give a meaning to (- + space @ < > \\ * ! d TAB CR) and random longer ones built from them and from the words that open header lines - each as a deleted line, an added line, either side of a Replace and a context line, first, last and alone in its edit, among ordinary lines at contexts 1, 3 and 0, through Normal/Read, Unified/ReadUnified, Context and two-file git wrappers/ReadGitPatch; a scale stream - lines of 4090..4098, 8189..8194, 12288, 20000 bytes (thorough: 2^k-2..2^k+1 up to 65537, and 100000) in every role, one edit of 255..1025 (thorough ..8193) lines, files of 1..65 (thorough ..1025) hunks, git wrappers of 2-4 files with up to 65 (129) hunks each; random texts of hostile lines (empty, starting with - + < > @ space --- diff, looking like hunk headers and change commands); long texts with line numbers of 2-4 digits; synthetic chunk lists (negative and inconsistent ranges, empty edits) for the formatter/reader correspondence; rendered diffs damaged in one place and hand-written texts for the readers; git-style wrappers around 1-3 renderings. For every diff the three renderings, Read/ReadUnified of them and the re-formatted patches are recorded. A case is non-trivial when the diff has at least one chunk (readers: always).",
+	tr.Main("C14: ROUND 6 (round6.go): header timestamp PAIRS - the same instant in two zones (also across midnight, quarter-hour zones, sub-second digits), the same clock reading in two zones, identical stamps, a microsecond / a second apart, zero and non-zero - in both orders through D, A, git wrappers of one and two files (the second the mirror image) and Q lines behind a reader call that saw the mirrored pair; ZP lines: two REAL times (instants in fixed zones named zl / zr) as LeftTime / RightTime under the default layout and 14 others - both headers of Unified and Context compared with time.Format side by side, under the default layout each side read back by ReadUnified and ReadGitPatch on its own and the patch re-formatted byte for byte; LARGE texts of 1100 x 2200 and 4100 x 4101 lines through New (above 2^20 and 2^24 pairs of lines; thorough: lengths around the square roots of 2^20 .. 2^24) - a block behind / in front of / in the middle of the common lines, three lines replaced at either end, ONE line inserted into a run of 1, 2, 5 identical lines, x y x y -> x y, one of two adjacent empty lines removed, a line doubled, and the mirror images - at contexts 3, 1, 0, each as a self-contained LA line (texts named by a recipe, New called when the line runs; the three renderings applied to the whole of Left by the reference appliers) and a D line (round trips of the same chunks). ROUND 5 (round5.go): header names special to the formats - /dev/null and near misses, a/ and b/ prefixes, the default placeholders a and b, the empty name, equal names on both sides, names with blanks, quotes, backslashes, names that look like header / hunk / git lines or end in a timestamp (names with a tab: correspondence only) - in every ordered pair of the core seventeen and each of the others against itself, /dev/null, a/x, b/x and the empty name, on an ordinary change, a created file and a deleted file (the side that does not exist named /dev/null), with no, one and both stamps, through D, A, git wrappers of one, two and three files with the junk lines git writes for that kind of patch, and Q lines behind a reader call that saw a /dev/null header; every rendering also through Diff.Format (must be byte-identical); ZF lines: FileInfo.TimeFormat set to 14 layouts (and left empty) on real times, both headers of Unified and Context compared with time.Format; every reader call of every line through one of eight kinds of io.Reader chosen by the length of the text (strings.Reader, bytes.Reader, bytes.Buffer, bufio.Reader of the default size and of 16 bytes, one byte per Read, the last bytes together with io.EOF, 7-byte chunks behind reads that return (0, nil)). ROUND 4 (Q lines, each self-contained: it names the earlier calls it runs after): a round trip through each of the three readers after each of the three readers was called on a text that leaves it at one of its exits - every hand-written text, valid renderings (normal, unified with and without header, two-file git wrapper) whole, cut short after every line, with 15 kinds of foreign line behind the last hunk, with a number in every change command and hunk header made wrong, with the first line missing, damaged at random, and much larger ones (40 hunks, a 5000-byte line) - all 3x3 combinations of prelude reader and target reader, two earlier calls, formatter calls into a writer that fails or panics at its k-th Write (k = 1..24), a much larger formatter call first; what the earlier reader calls returned is spelled again after the round trip and must not have changed. EVERY line length 1..600 (thorough 1100) as a deleted, an added and a context line of one diff (every fifth length also as either side of a Replace) through Normal/Read, Unified/ReadUnified, Context, the three reference appliers and a git wrapper; every number of lines in one edit 1..600 (dropped / inserted / replaced, rotating), every start line 1..601 (spellings of all those numbers in ranges and change commands; odd offsets with different left and right line numbers), every number of hunks 1..100 (thorough 600). COLLIDING LINES from corpus/common/hash-collisions.tsv (FNV-1a/FNV-1 32, CRC-32, Adler-32, djb2, 31-polynomial; each pair checked against its hash when the generator starts) and lines equal up to case, surrounding blanks, Unicode normalisation, numeric value, byte order: one in Left where Right has the other, next to each other, one the context of a change to the other, one in each file of a git wrapper; number-like and multi-byte UTF-8 line texts in every role. Then, as before: every pair of texts over 3 symbols to length 3 (quick) / 4 (thorough) at contexts 0, 1, 3, each diff with and without a file header; a sweep of line texts - every string of length <= 2 (quick) / <= 3 (thorough) over the bytes the formats give a meaning to (- + space @ < > \\ * ! d TAB CR) and random longer ones built from them and from the words that open header lines - each as a deleted line, an added line, either side of a Replace and a context line, first, last and alone in its edit, among ordinary lines at contexts 1, 3 and 0, through Normal/Read, Unified/ReadUnified, Context and two-file git wrappers/ReadGitPatch; a scale stream - lines of 4090..4098, 8189..8194, 12288, 20000 bytes (thorough: 2^k-2..2^k+1 up to 65537, and 100000) in every role, one edit of 255..1025 (thorough ..8193) lines, files of 1..65 (thorough ..1025) hunks, git wrappers of 2-4 files with up to 65 (129) hunks each; random texts of hostile lines (empty, starting with - + < > @ space --- diff, looking like hunk headers and change commands); long texts with line numbers of 2-4 digits; synthetic chunk lists (negative and inconsistent ranges, empty edits) for the formatter/reader correspondence; rendered diffs damaged in one place and hand-written texts for the readers; git-style wrappers around 1-3 renderings. For every diff the three renderings, Read/ReadUnified of them and the re-formatted patches are recorded. A case is non-trivial when the diff has at least one chunk (readers: always).",
 		exec, func(g *tr.G) {
 			// round 4 (round4.go): earlier calls in the same process.  FIRST: these lines carry their own
 			// prelude, so they fail alone when replayed; an ordinary line that fails only because of what
@@ -896,6 +902,11 @@ func main() {
 			// the TimeFormat option
 			headerNames(g)
 			timeLayouts(g)
+			// round 6 (round6.go): pairs of header stamps at the same instant in different zones, at the same
+			// clock reading, identical, zero and not; large texts (1100 x 2200, 4100 x 4101 lines) through New
+			stampPairs(g)
+			realStampPairs(g)
+			largeTexts(g)
 			// exhaustive tiny texts
 			alpha := []string{"a", "b", "c"}
 			n := g.Scale(3, 4)
